@@ -55,6 +55,12 @@ CHECKS = {
     design_ref="DESIGN.md section 6 C12",
     note="Trusts: TLC, vocabulary. One recorded known finding (done/cancelled todo whose body starts with a priority-shaped word).",
     technique="TLA+ spec (PageSem RenderNote/RoundTrip) + TLC + S->I replay through the real to_string and compiler + batch validation by TLC"),
+ "C13": dict(
+    category="fault_enumeration",
+    text="IndexSteps.tla splits create/reindex at every external effect with Crash and Rerun; TLC accepts the repaired hash rule with two crashes and refutes the two earlier effect orders (design level). The verdict is fault enumeration on the real code: every create/reindex command of simulated behaviours is traced once through the interposition layer, then killed before each external effect (thorough: each file write also torn at 0/50/97 %) and run again; the rerun must succeed and reach the state of the uninterrupted run up to ZID renaming, with real-level agreement and no duplicate ZID. Exhaustive over the effect boundaries of every explored scenario.",
+    design_ref="DESIGN.md section 6 C13",
+    note="Crash = BaseException raised at the effect boundary in-process + engine dropped; SQLite commit atomicity trusted. Effects observed at io.open / os.unlink / os.rename / os.replace / SQLAlchemy commit.",
+    technique="TLA+ spec (IndexSteps.tla) + TLC on crash/rerun model + exhaustive crash-point (and torn-write) enumeration on the real commands via interposition"),
 }
 NOT_YET = "check not built yet in this round (planned in DESIGN.md section 6); not claimed until its evidence exists"
 
